@@ -277,12 +277,14 @@ def edit_catalogue(rng, kind, s, T):
             out.append('del!%s!%d' % (path, rng.randrange(n)))
 
     if kind == 'version':
-        out += ['set!nVersion!int!%d' % rng.choice([70001, 70002, 70015, 0x7fffffff]),
+        # below 70001 the message carries no relay flag (the receiver assumes 1): stay inside the domain
+        vers = [70001, 70002, 70015, 0x7fffffff] + ([60002, 70000, 209] if s['fRelay'] == 1 else [])
+        out += ['set!nVersion!int!%d' % rng.choice(vers),
                 'set!nServices!int!%d' % T.pick(rng, T.U64E, 64),
                 'set!nTime!int!%d' % T.pick_int(rng, T.I64E, 64),
                 'set!nNonce!int!%d' % T.pick(rng, T.U64E, 64),
                 'set!nStartingHeight!int!%d' % T.pick_int(rng, T.I32E, 32),
-                'set!fRelay!int!%d' % rng.choice([0, 1, 2, 255]),
+                'set!fRelay!int!%d' % (rng.choice([0, 1, 2, 255]) if s['nVersion'] >= 70001 else 1),
                 'set!strSubVer!hex!%s' % _hx(rng.randbytes(len(s['strSubVer']))),
                 'set!strSubVer!hex!%s' % _hx(rng.randbytes(rng.choice([0, 1, 7, 0xfd]))),
                 'set!addrTo.nServices!int!%d' % T.pick(rng, T.U64E, 64),
